@@ -58,6 +58,9 @@ pub fn run(n: usize, rng: &mut Rng, rep: &mut Report) {
                 if let Some(m) = log.contradicted.first() {
                     rep.violation("lookahead-contradicts", input.clone(), format!("inline rule #{} succeeded in look-ahead (skip_token) at {} with length {:?} but the real call there gave {:?}", m.rule_idx, m.at, m.silent, m.real));
                 }
+                if let Some(m) = log.failed_moved.first() {
+                    rep.violation("failed-rule-moves-position", input.clone(), format!("{} rule #{} reported no match at {} but left the position at {:?}: the speculative scan inside it left a trace", if m.inline { "inline" } else { "block" }, m.rule_idx, m.at, m.real));
+                }
                 if let Some(m) = log.mismatches.first() {
                     let class = if !m.silent_kept_tree { "lookahead-touches-tree" } else if !m.silent_kept_pos { "lookahead-changes-state" } else { "lookahead-contradicts" };
                     rep.violation(class, input.clone(), format!("{} rule #{} at {}: silent {:?}, real {:?}, tree kept {}, state kept {}", if m.inline { "inline" } else { "block" }, m.rule_idx, m.at, m.silent, m.real, m.silent_kept_tree, m.silent_kept_pos));
